@@ -779,10 +779,16 @@ impl<'t, 'a> Gen<'t, 'a> {
         } else {
             E::id(class)
         };
-        let path = E::Member {
-            obj: E::Member { obj: owner.bx(), prop: "prototype".into(), optional: false }.bx(),
-            prop: m,
-            optional: false,
+        let path = if self.t.chance(25) && !(self.o.exec && self.o.avoid.missing_proto_method) {
+            // `o.q.m.call(thisArg, ..)`: identifiers only, but not a `.prototype` path - read before thisArg is evaluated
+            self.tag("member-path-call");
+            E::Member { obj: E::Member { obj: E::id("o").bx(), prop: self.t.pick(&["q", "p", "k"]).to_string(), optional: false }.bx(), prop: m, optional: false }
+        } else {
+            E::Member {
+                obj: E::Member { obj: owner.bx(), prop: "prototype".into(), optional: false }.bx(),
+                prop: m,
+                optional: false,
+            }
         };
         self.tag("proto-call");
         let this_arg = match self.t.weighted(&[5, 2, 2, 1]) {
@@ -875,7 +881,15 @@ impl<'t, 'a> Gen<'t, 'a> {
         let target = if self.t.flag() {
             E::Member { obj: obj.bx(), prop: self.t.pick(PROPS).to_string(), optional: false }
         } else {
-            let mut idx = self.expr(d);
+            let mut idx = if self.t.chance(30) {
+                // `o[a, b] += s`: a comma expression needs no parentheses as computed key
+                self.tag("bare-sequence-key");
+                let a = self.expr(d.min(1));
+                let b = self.leaf();
+                E::Seq(vec![a, b])
+            } else {
+                self.expr(d)
+            };
             if op == "+=" && self.o.avoid.compound_effectful_target && !Self::is_pure_simple(&idx) {
                 self.redirect("compound_effectful_target");
                 idx = self.leaf();
